@@ -11,6 +11,7 @@ KNOWN_PATH = os.path.join(VERIF, "known_findings.json")
 
 
 def load_known():
+    if os.environ.get("VERIF_IGNORE_KNOWN"): return []       # used once to produce the native replay of a finding before listing it
     try:
         return json.load(open(KNOWN_PATH))
     except FileNotFoundError:
@@ -54,6 +55,21 @@ def triage(prog, M, vc, res, tier, max_per_ob=2):
             if done_new >= max_per_ob: continue
             done_new += 1
             n += 1
+            refiners = getattr(v.ctx, "model_refiners", None)
+            if refiners:
+                # abstractions used on this path (e.g. the cw3 kernel as an uninterpreted function) are replaced by their
+                # reference definitions to obtain a counterexample that can be replayed against the real code
+                import z3 as _z3
+                s2 = _z3.Solver(); s2.set("timeout", 120000)
+                s2.add(*v.ctx.pc)
+                if v.info.get("prop") is not None and not isinstance(v.info["prop"], bool): s2.add(_z3.Not(v.info["prop"]))
+                for rf in refiners: s2.add(*rf(v.ctx))
+                rr = s2.check()
+                if rr != _z3.sat:
+                    out_i.append({"vc": vc.name, "obligation": ob_name, "why": f"counterexample exists only under the kernel abstraction ({rr}); "
+                                  "the abstraction's facts are too weak here or the kernel itself is broken (see C04)"})
+                    continue
+                v.model = s2.model()
             rec = confirm(I, vc, v, n)
             if rec.get("reproduced") is True: out_v.append(rec)
             else: out_i.append(rec)
